@@ -307,14 +307,19 @@ class Engine:
             new, reload, winner = self._reference(world, acl_safe)
             all_new = self._reference(world, False)[0]
             for p in sorted(new):
-                rel = ch.weighted([(3, "keep"), (2, "equal"), (2, "different"), (1, "absent"), (1, "newline-only"), (1, "empty")],
-                                  "file-relation")
+                rel = ch.weighted([(3, "keep"), (2, "equal"), (2, "different"), (1, "absent"), (1, "newline-only"), (1, "empty"),
+                                   (2, "reordered")], "file-relation")
                 if step > 0 and rel == "keep":
                     continue
                 if rel in ("keep", "equal"):
                     world.files[p] = new[p]
                 elif rel == "different":
                     world.files[p] = new[p] + "\nedited by hand"
+                    world.fire("oob_edit")
+                elif rel == "reordered":
+                    lines = new[p].split("\n")
+                    perm = lines[1:] + lines[:1] if len(set(lines)) > 1 else lines + ["edited by hand"]
+                    world.files[p] = "\n".join(perm)        # same lines, another order
                     world.fire("oob_edit")
                 elif rel == "absent":
                     world.files.pop(p, None)
